@@ -34,6 +34,10 @@ type peSpec struct {
 	// of the headers); what a consumer does with it is asked of the consumer, never assumed.
 	NoBits      []int
 	NoBitsFront bool
+	// CertPad: the alignment bytes that follow a certificate-table entry whose length is not a multiple of 8 are not
+	// zero (they belong to the certificate table, which is excluded from the digest; the format does not say what
+	// they hold, signers usually write zeros, other tools leave what was there)
+	CertPad bool
 }
 
 // classes of a left-over certificate-table address (index = CertAddrKind)
@@ -63,6 +67,9 @@ func (s peSpec) class() string {
 	}
 	if len(s.NoBits) > 0 {
 		cl += fmt.Sprintf("/nobits%d", len(s.NoBits))
+	}
+	if s.CertPad && len(s.CertBodies) > 0 {
+		cl += "/alignment-bytes-not-zero"
 	}
 	return cl
 }
@@ -228,7 +235,11 @@ func buildPE(s peSpec) builtPE {
 			binary.LittleEndian.PutUint16(e[4:], 0x0200)
 			binary.LittleEndian.PutUint16(e[6:], 0x0002)
 			for len(e)%8 != 0 {
-				e = append(e, 0)
+				pad := byte(0)
+				if s.CertPad {
+					pad = byte(rng.next()) | 1
+				}
+				e = append(e, pad)
 			}
 			table = append(table, e...)
 		}
@@ -301,6 +312,9 @@ func specCase(s peSpec) Case {
 	if len(s.NoBits) > 0 { // only then: the cases (and replay files) of all other images stay as they were
 		cs["nobits"], cs["nobitsfront"] = intsI(s.NoBits), s.NoBitsFront
 	}
+	if s.CertPad {
+		cs["certpad"] = true
+	}
 	return cs
 }
 
@@ -332,7 +346,8 @@ func caseInts(v interface{}) []int {
 func specOfCase(cs Case) peSpec {
 	plus, _ := cs["plus"].(bool)
 	front, _ := cs["nobitsfront"].(bool)
-	return peSpec{NoBits: caseInts(cs["nobits"]), NoBitsFront: front, Plus: plus, Lfanew: int(cs.I("lfanew")), NDirs: int(cs.I("ndirs")), SecSizes: caseInts(cs["secsizes"]), HdrOrder: caseInts(cs["hdrorder"]),
+	certPad, _ := cs["certpad"].(bool)
+	return peSpec{CertPad: certPad, NoBits: caseInts(cs["nobits"]), NoBitsFront: front, Plus: plus, Lfanew: int(cs.I("lfanew")), NDirs: int(cs.I("ndirs")), SecSizes: caseInts(cs["secsizes"]), HdrOrder: caseInts(cs["hdrorder"]),
 		GapAfterH: int(cs.I("gapafterh")), Gaps: caseInts(cs["gaps"]), SohSlack: int(cs.I("sohslack")), Trailing: int(cs.I("trailing")), CertBodies: caseInts(cs["certbodies"]),
 		Machine: uint16(cs.I("machine")), Seed: cs.I("seed"), VSizes: caseInts(cs["vsizes"]), CertAddrKind: int(cs.I("certaddr")), CertAddrSalt: int(cs.I("certaddrsalt"))}
 }
